@@ -1,6 +1,7 @@
 package main
 
 import (
+	"fmt"
 	"context"
 	"math"
 	"math/rand"
@@ -308,7 +309,7 @@ func opEpoch(g *G) (interface{}, []uint64, int, interface{}) {
 		out["after"] = dumpPop(sc.pop)
 		out["fresh"] = generationFresh(old, sc.pop)
 		out["genesis"] = popGenesisClass(sc.pop)
-		if ok, verr := sc.pop.Verify(); !ok || verr != nil {
+		if ok, verr := safeVerify(sc.pop); !ok || verr != nil {
 			out["verify"] = errStr(verr)
 		}
 	}
@@ -434,4 +435,14 @@ func opSpeciate(g *G) (interface{}, []uint64, int, interface{}) {
 	}
 	out := map[string]interface{}{"err": es, "pop": dumpPop(pop)}
 	return map[string]interface{}{"pop": before, "batch": jb, "opts": dumpEpochOpts(opts)}, nil, 0, out
+}
+
+// safeVerify: Population.Verify, a panic inside it (e.g. a gene with a nil endpoint) reported as an error
+func safeVerify(p *genetics.Population) (ok bool, err error) {
+	defer func() {
+		if r := recover(); r != nil {
+			ok, err = false, fmt.Errorf("Population.Verify panicked: %v", r)
+		}
+	}()
+	return p.Verify()
 }
